@@ -5,13 +5,7 @@ impl Kanata {
     /// corresponding physical key in the configuration. If any of keyberon active keys match any
     /// potential physical key output, write the repeat event to the OS.
     pub(super) fn handle_repeat(&mut self, event: &KeyEvent) -> Result<()> {
-        let ret = self.handle_repeat_actual(event);
-        // The cur_keys Vec is re-used for processing, for efficiency reasons to avoid allocation.
-        // Unlike prev_keys which has useful info for the next call to handle_time_ticks, cur_keys
-        // can be reused and cleared — it just needs to be empty for the next handle_time_ticks
-        // call.
-        self.cur_keys.clear();
-        ret
+        self.handle_repeat_actual(event)
     }
 
     pub(super) fn handle_repeat_actual(&mut self, event: &KeyEvent) -> Result<()> {
@@ -30,9 +24,9 @@ impl Kanata {
                 return Ok(());
             }
         }
-        self.cur_keys.extend(self.layout.bm().keycodes());
-        self.overrides
-            .override_keys(&mut self.cur_keys, &mut self.override_states);
+        // `prev_keys` is the key list of the last tick after unmod/unshift, overrides, caps-word
+        // and sequence filtering, i.e. what the OS has been told is down. Recomputing it here from
+        // the layout would skip some of those steps and repeat keys that are not down.
 
         // Prioritize checking the active layer in case a layer-while-held is active.
         let active_held_layers = self.layout.bm().trans_resolution_layer_order();
@@ -43,9 +37,7 @@ impl Kanata {
                 log::debug!("key outs for active layer-while-held: {outputs_for_key:?};");
                 for osc in outputs_for_key.iter().rev().copied() {
                     let kc = osc.into();
-                    if self.cur_keys.contains(&kc)
-                        || self.unshifted_keys.contains(&kc)
-                        || self.unmodded_keys.contains(&kc)
+                    if self.prev_keys.contains(&kc)
                     {
                         log::debug!("repeat    {:?}", KeyCode::from(osc));
                         if let Err(e) = write_key(&mut self.kbd_out, osc, KeyValue::Repeat) {
@@ -72,9 +64,7 @@ impl Kanata {
             log::debug!("key outs for default layer: {outputs_for_key:?};");
             for osc in outputs_for_key.iter().rev().copied() {
                 let kc = osc.into();
-                if self.cur_keys.contains(&kc)
-                    || self.unshifted_keys.contains(&kc)
-                    || self.unmodded_keys.contains(&kc)
+                if self.prev_keys.contains(&kc)
                 {
                     log::debug!("repeat    {:?}", KeyCode::from(osc));
                     if let Err(e) = write_key(&mut self.kbd_out, osc, KeyValue::Repeat) {
@@ -90,10 +80,7 @@ impl Kanata {
         // and have delegated to defsrc handling.
         log::debug!("checking defsrc output");
         let kc = event.code.into();
-        if self.cur_keys.contains(&kc)
-            || self.unshifted_keys.contains(&kc)
-            || self.unmodded_keys.contains(&kc)
-        {
+        if self.prev_keys.contains(&kc) {
             if let Err(e) = write_key(&mut self.kbd_out, event.code, KeyValue::Repeat) {
                 bail!("could not write key {e:?}");
             }
